@@ -13,8 +13,9 @@ ge metric <s>                                            StackElem{Name: s}.Metr
 ge trim <s>                                              strings.TrimSpace                     -> s
 ```
 `ge race <seed> <n>` runs the chains from 16 goroutines under the race detector (Go side only).
-`<frames>` is a comma-separated run-length list `<s>*<count>`; `<site>` selects the Go call site and
-is ignored here.  obs = `n=<s> m=<s> s=<s> d=<s> k=<len(stack)>`.
+`<frames>` is a comma-separated run-length list `<s>*<count>`; `<Method>` may also be `ExtMsgf` (gerror.ExtMsgf on regs[reg]) or `ExtMsgfForeign` (on a foreign error / nil;
+F: is then `%+v` of that error).  `<site>` selects the Go call site and
+is ignored here.  obs = `n=<s> m=<s> s=<s> d=<s> k=<len(stack)>`; `ge` answers append ` e=<Error() without stack text>`.
 -/
 namespace Drv.GErrClone
 open _root_.GErrClone
@@ -51,6 +52,9 @@ def enc (s : Str) : String :=
 def obs (e : E) : String :=
   s!"n={enc e.name} m={enc e.msg} s={enc e.src} d={enc e.dtag} k={e.stack.length}"
 
+/-- `ge` answers also carry `(*GError).Error()` with the stack text cut off -/
+def obsE (e : E) : String := s!"{obs e} e={enc (baseError e)}"
+
 def field (pfx : String) (w : String) : Option String :=
   if w.startsWith pfx then some ((w.drop pfx.length).toString) else none
 
@@ -78,13 +82,38 @@ def handle (st : St) (ws : List String) : St × String :=
     | some r, some n, some m, some s => (set st r { name := n, msg := m, src := s, dtag := [], stack := [] }, "ok")
     | some _, _, _, _ => (st, "bad-utf8")
     | _, _, _, _ => (st, "bad-op")
+  | ["call", d, r, "ExtMsgf", _site, f, p, s, _elems] =>
+    -- gerror.ExtMsgf(regs[r], format, args...): F: is Sprintf(format, args...)
+    match d.toNat?, r.toNat?, field "F:" f, field "P:" p, field "S:" s with
+    | some d, some r, some f, some p, some s =>
+      match get st r, dec f, decList p, decFrames s with
+      | some e, some f, some [fmt], some (top :: rest) =>
+        let res := extMsgf (.gerr e) fmt f [] ⟨top, rest⟩
+        (set st d res, obsE res)
+      | none, _, _, _ => (st, "bad-reg")
+      | _, _, some _, some [] => (st, "bad-op")
+      | _, _, some [_], _ => (st, "bad-utf8")
+      | _, _, _, _ => (st, "bad-op")
+    | _, _, _, _, _ => (st, "bad-op")
+  | ["call", d, _r, "ExtMsgfForeign", _site, f, p, s, _elems] =>
+    -- gerror.ExtMsgf(<foreign error or nil>, format, args...): F: is Sprintf("%+v", err)
+    match d.toNat?, field "F:" f, field "P:" p, field "S:" s with
+    | some d, some f, some p, some s =>
+      match dec f, decList p, decFrames s with
+      | some f, some [fmt], some (top :: rest) =>
+        let res := extMsgf .foreign fmt [] f ⟨top, rest⟩
+        (set st d res, obsE res)
+      | _, some _, some [] => (st, "bad-op")
+      | _, some [_], _ => (st, "bad-utf8")
+      | _, _, _ => (st, "bad-op")
+    | _, _, _, _ => (st, "bad-op")
   | ["call", d, r, m, _site, f, p, s, _elems] =>
     match d.toNat?, r.toNat?, Method.ofGoName m, field "F:" f, field "P:" p, field "S:" s with
     | some d, some r, some m, some f, some p, some s =>
       match get st r, dec f, decList p, decFrames s with
       | some e, some f, some p, some (top :: rest) =>
         let res := step e { m := m, params := p, formatted := f, frames := ⟨top, rest⟩ }
-        (set st d res, obs res)
+        (set st d res, obsE res)
       | none, _, _, _ => (st, "bad-reg")
       | _, _, _, some [] => (st, "bad-op")
       | _, _, _, _ => (st, "bad-utf8")
@@ -95,13 +124,13 @@ def handle (st : St) (ws : List String) : St × String :=
       match get st r, get st a with
       | some e, some g =>
         let res := convertFull (wiring m) e { m := m, params := [], formatted := [], frames := ⟨[], []⟩ } (.gerr g)
-        (set st d res, obs res)
+        (set st d res, obsE res)
       | _, _ => (st, "bad-reg")
     | _, _, _, _ => (st, "bad-op")
   | ["obs", r] =>
     match r.toNat? with
     | some r => match get st r with
-      | some e => (st, obs e)
+      | some e => (st, obsE e)
       | none => (st, "bad-reg")
     | none => (st, "bad-op")
   | ["race", _, _] =>
